@@ -41,20 +41,26 @@ impl Arena {
         let align = align_of::<T>();
         let size = size_of::<T>();
 
-        let mut padding = (align - inner.offset % align) % align;
+        // the buffers are only byte-aligned, so pad the address of the next free byte,
+        // not merely its offset
+        let padding_for = |inner: &ArenaInner| {
+            let addr = inner.current_buf.as_ptr() as usize + inner.offset;
+            (align - addr % align) % align
+        };
+        let mut padding = padding_for(inner);
         let new_offset = inner.offset + padding + size;
 
         if new_offset > inner.current_buf.len() {
             // double previous capacity
             let new_capacity = inner.current_buf.len() * 2;
-            // and make sure capacity is enough to hold at least a single T
-            let new_capacity = new_capacity.max(size);
+            // and make sure capacity is enough to hold at least a single T, wherever the buffer starts
+            let new_capacity = new_capacity.max(size + align - 1);
             let new_buf: Box<[MaybeUninit<u8>]> = Box::new_uninit_slice(new_capacity);
             let old_buf = std::mem::replace(&mut inner.current_buf, new_buf);
             inner.old_bufs.push(old_buf);
             // the new buffer is empty: allocate from its start, not from the old buffer's offset
             inner.offset = 0;
-            padding = 0;
+            padding = padding_for(inner);
         }
 
         let start = inner.offset + padding;
